@@ -116,6 +116,8 @@ impl LoadBalancer {
       if !self.state.lock().peers.is_empty() {
         return Ok(());
       }
+      #[cfg(rzmq_verif)]
+      crate::verif::point("lb.wait.checked");
       notify.notified().await;
     }
   }
